@@ -1,6 +1,7 @@
 package props
 
 import (
+	"encoding/base64"
 	"context"
 	"crypto/ecdsa"
 	"fmt"
@@ -171,8 +172,22 @@ func (w *HWorld) Connect(slot int) {
 		},
 		sched: hwebsocket.NewScheduler(),
 	}
+	// clients of different applications share a server: the app key (taken from the access token
+	// in production) labels the session metrics
+	hws.VerifSetAppKey(c.rh, appKeyOf(slot))
 	w.conns[slot] = c
 	w.all = append(w.all, c)
+}
+
+// appKeyOf: connections 0,3,6.. carry no app key, the others one of two.
+func appKeyOf(slot int) string { return []string{"", "app-A", "app-B"}[slot%3] }
+
+// appKeyToken is an access token as GetAppKeyFromHagallUserToken reads it (claims only; the
+// wire driver's handshake does not verify tokens).
+func appKeyToken(appKey string) string {
+	hdr := base64.RawURLEncoding.EncodeToString([]byte(`{"alg":"HS256","typ":"JWT"}`))
+	pl := base64.RawURLEncoding.EncodeToString([]byte(fmt.Sprintf(`{"app_key":%q,"iss":"HDS"}`, appKey)))
+	return hdr + "." + pl + "." + base64.RawURLEncoding.EncodeToString([]byte("unverified"))
 }
 
 func (w *HWorld) Send(slot int, p proto.Message) {
